@@ -302,6 +302,22 @@ func c14negCases(st *Stats) []Case {
 		add(true, happy(false, false, false).op(), happy(false, false, false).with("f1", noMech(false)).op())
 		add(insecure, happy(true, false, false).with("f1", noMech(true), "f2", "0000").op())
 	}
+	// traffic logging on: what reaches the server is still exactly the payload (the stream logger sits between the
+	// transport and the socket - before and after STARTTLS)
+	for _, insecure := range bools {
+		for _, tlsOff := range bools {
+			if !insecure && !tlsOff {
+				continue
+			}
+			for _, auth := range []string{"success", "failure"} {
+				cases = append(cases, Case{ID: fmt.Sprintf("neg%d", n),
+					Variant: []string{"neg", "insecure=" + strconv.FormatBool(insecure), "sm=false", "logger=true"},
+					Ops:     [][]string{happy(tlsOff, false, false).with("auth", auth).op()}})
+				n++
+				st.Inc("session_auth_logged")
+			}
+		}
+	}
 	st.Note(fmt.Sprintf("%d whole negotiations: reply classes {success, failure, other element, undecodable/closed} to <auth/> x insecure x STARTTLS x session-mandatory x sm, the server answering every later step as if nothing had happened", n))
 	return cases
 }
